@@ -320,8 +320,11 @@ func VerifC08_PatternIsolation() {
 			nodes = append(nodes, vTreeNode{rel: []string{n}, depth: 1})
 		}
 	}
-	sets := [][]string{{"(?i)a", "b"}, {"b", "(?i)a"}, {"a|", "b"}, {"(?s)a", "B"}, {"a$", "^b"}}
-	invalid := [][]string{{"(a", "b)"}, {"(", ")"}, {"a", "b)"}, {"[a", "b]"}}
+	// pairs with inline flags / alternations, and pairs in which the text of one pattern is itself matched by the
+	// other (each pattern must keep its own effect whatever else is in the list, in either order)
+	sets := [][]string{{"(?i)a", "b"}, {"b", "(?i)a"}, {"a|", "b"}, {"(?s)a", "B"}, {"a$", "^b"},
+		{"a", "[ab]"}, {"[ab]", "a"}, {"a", "a*b"}, {"a*b", "a"}, {"b", "ab|B"}, {"a", "a"}}
+	invalid := [][]string{{"(a", "b)"}, {"(", ")"}, {"a", "b)"}, {"[a", "b]"}, {"a", "a["}, {"a[", "a"}}
 	ctx := context.Background()
 	if verif.Bool("invalidSet") {
 		pats := invalid[verif.Choice("set", len(invalid))]
